@@ -46,7 +46,7 @@ def run_points(case):
         want_out = conc(pt['out'])
         env_keys = {'NO_COLOR': gate['nocolor'], 'FORCE_COLOR': gate['forcecolor']}
         saved_env = {k: os.environ.get(k) for k in env_keys}
-        saved_stdout = sys.stdout
+        saved_stdout, saved_stderr = sys.stdout, sys.stderr
         try:
             for k, on in env_keys.items():
                 if on:
@@ -56,9 +56,15 @@ def run_points(case):
 
             class FakeOut(io.StringIO):
                 def isatty(self):
-                    return gate['isatty']
-            sys.stdout = FakeOut()
-            color = Color(None if gate['force'] == 'unset' else gate['force'] == 'on')
+                    return gate['ttyout']
+
+            class FakeErr(io.StringIO):
+                def isatty(self):
+                    return gate['ttyerr']
+            sys.stdout, sys.stderr = FakeOut(), FakeErr()
+            color = Color.stderr() if gate['stream'] == 'stderr' else Color()
+            if gate['force'] != 'unset':
+                color.enable(gate['force'] == 'on')
             st = Style(text, color=color, **kw)
             got = str(st)
             if got != want_out:
@@ -110,7 +116,7 @@ def run_points(case):
         except Exception as e:  # noqa: BLE001
             bad.append({'what': f'exception {type(e).__name__}: {e}', 'point': pt, 'text': text})
         finally:
-            sys.stdout = saved_stdout
+            sys.stdout, sys.stderr = saved_stdout, saved_stderr
             for k, v in saved_env.items():
                 if v is None:
                     os.environ.pop(k, None)
@@ -145,6 +151,35 @@ def render_errors(_case):
     return bad
 
 
+def render_markup(_case):
+    """Another user of styling: tag markup.  The same tagged text rendered under an enabled policy, then under a disabled one, then
+    enabled again (a screen rendering followed by a log rendering): colour disabled => the text and no escape sequence at all, and
+    the coloured rendering minus escapes is that text.  Also through the error-rendering policy Color.stderr() with stdout and
+    stderr differing."""
+    import io
+    import sys
+    from tatsu.util.tty import descape
+    from tatsu.ztyle import Color
+    bad = []
+    for tagged, plain in [('[bold]ab[/] cd', 'ab cd'), ('[red]x[/red][green]y[/green]', 'xy'), ('[bold red]p q[/][/] r', 'p q r'),
+                          ('[underline]你好[/] é', '你好 é'), ('plain', 'plain'), ('[bold][italic]n[/]m[/]', 'nm')]:
+        try:
+            on1 = str(Color.always().markup(tagged))
+            off = str(Color.never().markup(tagged))
+            on2 = str(Color.always().markup(tagged))
+        except Exception as e:  # noqa: BLE001
+            bad.append({'what': f'markup raised {type(e).__name__}: {e}', 'text': tagged})
+            continue
+        if off != plain or '\x1b' in off:
+            bad.append({'what': 'markup with colour disabled (after a coloured rendering of the same tags) is not the plain text', 'text': tagged,
+                        'expected': plain, 'observed': off})
+        if descape(on1) != plain or on1 != on2:
+            bad.append({'what': 'descape(coloured markup) != plain text', 'text': tagged, 'expected': plain, 'observed': [on1, on2]})
+        if tagged != plain and '\x1b' not in on1:
+            bad.append({'what': 'coloured markup has no escapes', 'text': tagged, 'observed': on1})
+    return bad
+
+
 def run(tier):
     ck = Check('C20', tier)
     d = tlc.scratch_dir('sgr')
@@ -173,6 +208,10 @@ def run(tier):
             ck.violation({'kind': 'point', 'inputs': {'text': b.get('text'), 'spec': b.get('spec'), 'style': {k: b['point'][k] for k in ('mods', 'fg', 'bg', 'gate')}},
                           'expected': b.get('expected'), 'observed': b.get('observed'), 'why': what, 'spec': 'Sgr'},
                          key=what.split(':')[0] + str(b.get('spec')))
+    for b in pmap(render_markup, [0], procs=1)[0]:
+        ck.violation({'kind': 'history', 'inputs': {'text': b.get('text')}, 'expected': b.get('expected'), 'observed': b.get('observed'),
+                      'why': b['what'], 'spec': 'Sgr!OffLaw / StripLaw (tag markup)'}, key='markup' + b['what'][:30])
+    ck.count(evaluations=18, traces=18)
     for b in pmap(render_errors, [0], procs=1)[0]:
         ck.violation({'kind': 'history', 'inputs': {'text': b['text'], 'history': 'render(Color.always()) ; render(Color.never()) ; render(Color.always())'},
                       'observed': b['observed'], 'why': b['what'], 'spec': 'Sgr!OffLaw / StripLaw (error rendering)'}, key=b['what'][:30])
